@@ -347,6 +347,53 @@ point_grid!(pts1, Point1, 1, mk_p1);
 point_grid!(pts2, Point2, 2, mk_p2);
 point_grid!(pts3, Point3, 3, mk_p3);
 
+/// float tiers: nearby operands with non-dyadic components. distance is magnitude(u - v): the difference of nearby
+/// numbers is exact, so the result has the accuracy of a sum of squares of *small* numbers; a route through
+/// |u|^2 - 2 u.v + |v|^2 cancels instead (wrong by |u|^2/|u-v|^2 roundings), which integer grids cannot show
+fn close_sys<T: Tier + Dom<M = Sh>, const N: usize>(
+    rep: &mut Report,
+    name: &str,
+    d2f: impl Fn([T; N], [T; N]) -> T + Sync,
+    df: impl Fn([T; N], [T; N]) -> T + Sync,
+) {
+    let dims: Vec<usize> = vec![3; N];
+    let nw = alphabet::product_len(&dims);
+    let deltas: Vec<f64> = if T::NAME == "F" { vec![2f64.powi(-6), 2f64.powi(-9), 2f64.powi(-12)] } else { vec![2f64.powi(-8), 2f64.powi(-20), 2f64.powi(-30)] };
+    let nb = 3;
+    rep.cases(
+        &format!("close/{name}"),
+        T::NAME,
+        &format!("3 generic non-dyadic u x all offsets w in {{-1,0,1}}^{N} x steps {:?}: v = u + step * w (rounded to the scalar type)", deltas),
+        nb * nw * deltas.len(),
+        Guard::states(6).distinct(6),
+        |i, ctx| {
+            let (bi, wi, di) = (i / (nw * deltas.len()), (i / deltas.len()) % nw, i % deltas.len());
+            let w = alphabet::decode(wi, &dims);
+            let base = alphabet::generic(N, bi);
+            let u: [T; N] = std::array::from_fn(|j| num_traits::cast::<f64, T>(base[j].0 as f64 / base[j].1 as f64 / 3.0).unwrap());
+            let v: [T; N] = std::array::from_fn(|j| num_traits::cast::<f64, T>(u[j].f() + deltas[di] * (w[j] as f64 - 1.0) * 1.1).unwrap());
+            ctx.describe(|| format!("{name}<{}> u={:?} v={:?}", T::NAME, u, v));
+            ctx.out(&(bi, wi, di));
+            let dm = model::vsub(lift_v(u), lift_v(v));
+            let d2 = model::vdot(dm, dm);
+            eq_s::<T>(ctx, &key(&format!("{name}/distance2/nearby")), d2f(u, v), d2);
+            eq_s::<T>(ctx, &key(&format!("{name}/distance2/nearby")), d2f(v, u), d2);
+            eq_s::<T>(ctx, &key(&format!("{name}/distance/nearby")), df(u, v), d2.sqrt());
+            eq_s::<T>(ctx, &key(&format!("{name}/distance/nearby")), df(v, u), d2.sqrt());
+        },
+    );
+}
+fn close<T: Tier + Dom<M = Sh>>(rep: &mut Report) {
+    close_sys::<T, 1>(rep, "Vector1", |u, v| mk_v1(u).distance2(mk_v1(v)), |u, v| mk_v1(u).distance(mk_v1(v)));
+    close_sys::<T, 2>(rep, "Vector2", |u, v| mk_v2(u).distance2(mk_v2(v)), |u, v| mk_v2(u).distance(mk_v2(v)));
+    close_sys::<T, 3>(rep, "Vector3", |u, v| mk_v3(u).distance2(mk_v3(v)), |u, v| mk_v3(u).distance(mk_v3(v)));
+    close_sys::<T, 4>(rep, "Vector4", |u, v| mk_v4(u).distance2(mk_v4(v)), |u, v| mk_v4(u).distance(mk_v4(v)));
+    close_sys::<T, 4>(rep, "Quaternion", |u, v| mk_q(u).distance2(mk_q(v)), |u, v| mk_q(u).distance(mk_q(v)));
+    close_sys::<T, 1>(rep, "Point1", |u, v| mk_p1(u).distance2(mk_p1(v)), |u, v| mk_p1(u).distance(mk_p1(v)));
+    close_sys::<T, 2>(rep, "Point2", |u, v| mk_p2(u).distance2(mk_p2(v)), |u, v| mk_p2(u).distance(mk_p2(v)));
+    close_sys::<T, 3>(rep, "Point3", |u, v| mk_p3(u).distance2(mk_p3(v)), |u, v| mk_p3(u).distance(mk_p3(v)));
+}
+
 fn floats<T: Tier + Dom<M = Sh>>(rep: &mut Report) {
     grid::<T, Vector1<T>, 1>(rep, false);
     grid::<T, Vector2<T>, 2>(rep, true);
@@ -356,6 +403,7 @@ fn floats<T: Tier + Dom<M = Sh>>(rep: &mut Report) {
     pts1::<T>(rep);
     pts2::<T>(rep);
     pts3::<T>(rep);
+    close::<T>(rep);
 }
 
 fn main() {
